@@ -87,6 +87,7 @@ static bool nontrivial(const std::string &prop, const Report &r)
 	if (prop == "C13") { for (auto &kv : r.cls) if (kv.first.compare(0, 10, "downgrade:") == 0) return true; return has(r, "fault:wrong-version"); }
 	if (prop == "C14") return has(r, "error-reports-sent");
 	if (prop == "C17") return has(r, "eod-with-out-of-range-or-boundary-interval") || has(r, "serial-notify-in-established") || has(r, "refresh-interval-expired-in-established");
+	if (prop == "C06") return has(r, "reload-swapped-prefix-table-in-one-step") || has(r, "reload-swapped-router-key-table-in-one-step");
 	if (prop == "C09" || prop == "C10") return has(r, "failed-after-partial-application(undo-path)") || has(r, "reload-completed(data-present-before)") || has(r, "open-after-expiry");
 	return false;
 }
@@ -97,6 +98,7 @@ int main(int argc, char **argv)
 	if (args.prop.empty()) args.prop = "C03";
 	Options opt;
 	opt.trace = true;
+	opt.battery = args.prop == "C06" || args.prop == "C04";
 	auto run_text = [&](const std::string &body) {
 		Script sc = from_text(body);
 		Report r = run(sc, opt);
